@@ -28,6 +28,7 @@ type PathEnum struct {
 	MaxPaths         int
 
 	arrays map[*ssa.Alloc]map[int64]ssa.Value
+	depth  int
 	Paths  []*PathResult
 	Trunc  bool
 }
@@ -332,7 +333,17 @@ func (pe *PathEnum) evalInstr(in ssa.Instruction, st *PathState, prev *ssa.Basic
 		// immediately invoked closure / local pure function returning a constant
 		if mc, ok := x.Common().Value.(*ssa.MakeClosure); ok {
 			if f, ok := mc.Fn.(*ssa.Function); ok {
-				if k, ok := pe.evalConstFunc(f, mc, st); ok {
+				if k, ok := pe.evalConstFunc(f, nil, st); ok {
+					st.Env[x] = k
+				}
+			}
+			return
+		}
+		// a small helper of the repository (e.g. an extracted `arrayLen()` method): evaluate it with the
+		// known arguments and the same predicate summaries; usable only if every path yields one constant
+		if f := x.Common().StaticCallee(); f != nil && IsRepo(f) && f.Blocks != nil && len(f.Blocks) <= 24 && pe.depth < 2 {
+			if bt, ok := x.Type().Underlying().(*types.Basic); ok && bt.Info()&(types.IsInteger|types.IsBoolean) != 0 {
+				if k, ok := pe.evalConstFunc(f, x.Common().Args, st); ok {
 					st.Env[x] = k
 				}
 			}
@@ -344,16 +355,24 @@ func (pe *PathEnum) evalInstr(in ssa.Instruction, st *PathState, prev *ssa.Basic
 
 // evalConstFunc evaluates a closure without parameters to a constant, giving
 // its free variables' pure predicate calls to EvalCall.
-func (pe *PathEnum) evalConstFunc(f *ssa.Function, mc *ssa.MakeClosure, outer *PathState) (int64, bool) {
-	if len(f.Params) != 0 || f.Blocks == nil {
-		return 0, false
+func (pe *PathEnum) evalConstFunc(f *ssa.Function, args []ssa.Value, outer *PathState) (int64, bool) {
+	if f.Blocks == nil || len(args) != len(f.Params) {
+		if !(args == nil && len(f.Params) == 0) {
+			return 0, false
+		}
 	}
-	sub := &PathEnum{Fn: f, Bind: map[ssa.Value]int64{}, EvalCall: func(c *ssa.Call, st *PathState) (int64, bool) {
+	bind := map[ssa.Value]int64{}
+	for i, a := range args {
+		if k, ok := outer.Known(a); ok {
+			bind[f.Params[i]] = k
+		}
+	}
+	sub := &PathEnum{Fn: f, Bind: bind, EvalCall: func(c *ssa.Call, st *PathState) (int64, bool) {
 		if pe.EvalCall == nil {
 			return 0, false
 		}
 		return pe.EvalCall(c, outer)
-	}, MaxPaths: 64}
+	}, MaxPaths: 64, depth: pe.depth + 1}
 	sub.Run()
 	if sub.Trunc || len(sub.Paths) == 0 {
 		return 0, false
